@@ -227,7 +227,7 @@ func TestVerifC43(t *testing.T) {
 	p.Rebals = []int64{1500, 3000, 6000, 12000}
 	p.Cleanups = []int64{100, 250, 500}
 	p.MixRebal = true
-	n := r.N(700, 12000)
+	n := r.N(500, 12000)
 	seen := func(w *gWorld, ev *gEvent) { r.Seen("group_states", w.stateSig(ev.After)) }
 	account := func(ci int, w *gWorld, o *c43Obs) {
 		if w.blocked {
